@@ -87,7 +87,9 @@ def run(ctx, mod, CtxClass):
         if 'fact extraction failed' in out:
             ctx.undecided('CANARY', c['id'], 'mutant no longer compiles on this tree')
         elif ok:
-            ctx.ok('CANARY', c['id'], 'reported')
+            ctx.ok('CANARY', c['id'], 'behaviour-preserving refactoring: check stayed silent' if c.get('benign') else 'reported')
+        elif c.get('benign'):
+            ctx.bad('CANARY', c['id'], 'the check raised an alarm on a behaviour-preserving refactoring (false alarm)', key='ENGINE:benign-alarm:%s' % c['id'])
         else:
             ctx.bad('CANARY', c['id'], 'mutant was NOT reported: the rule that is supposed to catch it has weakened', key='ENGINE:canary-missed:%s' % c['id'])
     ctx.rule('SEEDED', 'each kept seeded change (independent sub-agent mutants, /verif/seeded) for this property is reported when applied to a scratch copy', floor=None)
